@@ -55,7 +55,9 @@ def main():
     checks = (a.checks or a.prop).split(",")
     # fixed paths so that sequential evaluations reuse build output
     wt = a.wt
-    tgt = "/var/tmp/ev-target"  # shared between evaluations (same crates), never inside /repo or /verif
+    # one build dir per scratch worktree path: cargo must never see the same target dir
+    # from two different checkouts (it would reuse the other checkout's binaries)
+    tgt = "/var/tmp/ev-target" + ("" if wt == "/tmp/ev-wt" else "-" + os.path.basename(wt))
     meta = {"property": a.prop, "name": a.name, "needs_to_manifest": a.needs, "ran": [], "at": time.strftime("%Y-%m-%dT%H:%M:%SZ", time.gmtime())}
     prev_meta = os.path.join(VERIF, "seeded", a.name, "meta.json")
     if a.skip_tests and os.path.exists(prev_meta):
